@@ -107,7 +107,7 @@ func (m *refLRU) State() (keys, ids []uint64, dirty []bool, ml, ll int) {
 }
 
 func checkC15(c *core.Ctx) []core.Floor {
-	c.Rule = "operation sequences over {store clean page, store dirty page, lookup, mark dirty, mark clean, store the resident page object itself again (as a flush does)} x keys, run on the real LRUCache holding real nodes and on a 50-line reference model; after EVERY step the return value and the resident entries (recency order, stored page identity, dirty flags, map and list sizes) must be equal. Exhaustive: all sequences of the stated depth over 3-4 keys at capacities 1-3; random: long sequences at capacities 4-64 with dirty ratios 0-100%. Distinct = sequence x capacity; non-trivial = the sequence caused an eviction or a refusal in the model."
+	c.Rule = "operation sequences over {store clean page, store dirty page, lookup, mark dirty, mark clean, store the resident page object itself again (as a flush does)} x keys, run on the real LRUCache holding real nodes and on a 50-line reference model; after EVERY step the return value and the resident entries (recency order, stored page identity, dirty flags, map and list sizes) must be equal. Exhaustive: all sequences of the stated depth over 3-4 keys at capacities 1-3; random: long sequences at capacities 4-64 with dirty ratios 0-100%, and sequences of 1500-4000 steps on a cache of 4096 / 4097 / 5000 / 8192 / 10000 (the default) pages that was filled first (state compared every 250 steps, return values at every step). Distinct = sequence x capacity; non-trivial = the sequence caused an eviction or a refusal in the model."
 	c.Assume = []string{"marking a resident page dirty/clean happens through the node pointer, as the B+ tree code does (no recency change)"}
 	drv := mustDriver(c, false)
 	type batch struct {
@@ -139,6 +139,18 @@ func checkC15(c *core.Ctx) []core.Floor {
 		capn := []int{4, 5, 8, 16, 32, 64}[r.Intn(6)]
 		randomSpecs = append(randomSpecs, lruseq.Spec{Cap: capn, Keys: capn + r.Range(1, capn), Steps: r.Range(200, 2000), Seed: r.U64(), Dirty: []int{0, 10, 30, 50, 80, 100}[r.Intn(6)]})
 	}
+	// capacities in the thousands, the default of 10000 pages among them: the
+	// cache is filled first, then a random sequence follows; the resident
+	// state is compared every 250 steps, return values at every step
+	nLarge := 12
+	if !core.Quick(c) {
+		nLarge = 300
+	}
+	var largeSpecs []lruseq.Spec
+	for i := 0; i < nLarge; i++ {
+		capn := []int{10000, 4096, 4097, 10000, 8192, 5000}[i%6]
+		largeSpecs = append(largeSpecs, lruseq.Spec{Cap: capn, Keys: capn + r.Range(100, capn/2), Prefill: capn - r.Intn(3), Steps: r.Range(1500, 4000), Every: 250, Seed: r.U64(), Dirty: []int{0, 10, 30, 50, 90}[r.Intn(5)]})
+	}
 	// random specs are grouped so that one driver process runs many
 	type job struct {
 		specs []lruseq.Spec
@@ -146,6 +158,9 @@ func checkC15(c *core.Ctx) []core.Floor {
 	var jobs []job
 	for _, b := range batches {
 		jobs = append(jobs, job{specs: []lruseq.Spec{b}})
+	}
+	for _, sp := range largeSpecs {
+		jobs = append(jobs, job{specs: []lruseq.Spec{sp}})
 	}
 	for i := 0; i < len(randomSpecs); i += 100 {
 		j := i + 100
@@ -185,7 +200,7 @@ func checkC15(c *core.Ctx) []core.Floor {
 			var st lruStats
 			sp.Sequences(func(n uint64, steps []lruseq.Step) {
 				before := st
-				ref := lruseq.Run(&refLRU{cap: sp.Cap, stats: &st}, steps)
+				ref := lruseq.RunEvery(&refLRU{cap: sp.Cap, stats: &st}, steps, sp.Every)
 				nontrivial := st.evictions > before.evictions || st.refusals > before.refusals
 				c.Eval(fmt.Sprintf("%d/%d/%d/%d/%d", sp.Cap, sp.Keys, sp.Depth, n, sp.Seed), nontrivial)
 				if idx >= len(got.Hashes) {
@@ -205,6 +220,11 @@ func checkC15(c *core.Ctx) []core.Floor {
 			c.Count("lookup_misses", st.misses)
 			if sp.Depth > 0 {
 				c.Count(fmt.Sprintf("exhaustive_depth%d_keys%d_cap%d_sequences", sp.Depth, sp.Keys, sp.Cap), int64(sp.Hi-sp.Lo))
+			} else if sp.Prefill > 0 {
+				c.Count("sequences_on_a_filled_cache_of_thousands_of_pages", 1)
+				if sp.Cap == 10000 {
+					c.Count("sequences_at_the_default_capacity_of_10000", 1)
+				}
 			} else {
 				c.Count("random_sequences", 1)
 			}
@@ -214,7 +234,7 @@ func checkC15(c *core.Ctx) []core.Floor {
 		c.Extra(fmt.Sprintf("exhaustive_scope_depth%d_keys%d", e.depth, e.keys), fmt.Sprintf("all %d sequences x capacities 1..3", lruseq.Count(e.depth, e.keys)))
 	}
 	c.Sample(3, map[string]interface{}{"exhaustive_example": fmt.Sprint(lruseq.Enum(12345, exh[0].depth, exh[0].keys)), "random_example_prefix": fmt.Sprint(lruseq.Random(7, 12, 6, 50))})
-	return []core.Floor{{Key: "evictions_in_model", Min: 1000}, {Key: "refusals_in_model", Min: 100}, {Key: "dirty_entries_skipped_by_eviction", Min: 100}, {Key: "random_sequences", Min: int64(nRandom)}}
+	return []core.Floor{{Key: "evictions_in_model", Min: 1000}, {Key: "refusals_in_model", Min: 100}, {Key: "dirty_entries_skipped_by_eviction", Min: 100}, {Key: "random_sequences", Min: int64(nRandom)}, {Key: "sequences_at_the_default_capacity_of_10000", Min: 4}}
 }
 
 // reportLRU re-runs one disagreeing sequence with the full trace and reports
